@@ -25,7 +25,8 @@ META = {
     "note": "Trusted: Coq kernel, extraction, the two token-level translators (exercised by the differential run), ASan/UBSan as witness "
             "finders. Abstracted: numeric payloads to all-finite flags; element counts < 2^31; CleanupTopology assumed not to add faces "
             "before tangents are gathered (hypothesis nFaceSort <= NumTri); CreateHalfedges/IsManifold/SortGeometry internals beyond the "
-            "listed subscripts are an oracle. Polygons, point sets, OBJ text, numeric arguments, MeshGL::Merge: exploration only.",
+            "listed subscripts are an oracle; the face count at sort time is replayed per record by the harness and ingest_in_bounds_all_face_counts needs no "
+            "hypothesis on it once DedupeEdge keeps the tangents in step (table flag read from src/edge_op.cpp). Polygons, point sets, OBJ text, numeric arguments, MeshGL::Merge: exploration only.",
 }
 
 KEY_OF_ARRAY = {"triRef": "runindex-oob", "runIndex": "runindex-oob",
@@ -216,9 +217,10 @@ def explore_lines(cx, n):
 def run(cx):
     cx.assumptions += [
         "numeric payloads are abstracted to all-finite flags; element counts are assumed < 2^31 (hypothesis `small`)",
-        "accesses after CreateHalfedges are modelled for vertex ids, property rows and the tangent gather only; hypothesis nFaceSort <= NumTri "
-        "(CleanupTopology adds no faces before GatherFaces) is not checked by a hook - the sanitizer run acts as witness finder",
-        "the entry-time cancel rung is not modelled (ctx = nullptr in the public constructors)",
+        "accesses after CreateHalfedges are modelled for vertex ids, property rows and the tangent gather only; the oracle nFaceSort is replayed "
+        "per record by the harness (CreateHalfedges + CleanupTopology on the positions), so the hypothesis nFaceSort <= NumTri is validated or refuted per record",
+        "the entry-time cancel gate is modelled (oracle `cancelled`); the later ADVANCE_PHASE_OR_RETURN cancel points are not; "
+        "the correspondence run uses ctx = nullptr (cancelled = false)",
         "status forwarding of lazily evaluated nodes relies on Impl::Transform / Boolean3::Result / CsgLeafNode::Compose keeping their status checks "
         "(verified token-wise as `internal` table entries) and is exercised by random programs on errored objects",
         "polygons, point sets, OBJ text, numeric constructor arguments: exploration under ASan/UBSan with a 10 s watchdog, no model",
@@ -257,7 +259,24 @@ def run(cx):
 
     recs = gen_records(cx, cx.pick(2000, 60000))
     cx.log('records generated')
-    lines0 = {cid: R.to_line("R", cid, r, ()) for cid, r, tag, prog in recs}
+    # oracle value nFaceSort: the constructor's steps up to CleanupTopology replayed by the harness on the positions
+    # (no tangents, no properties: cannot overrun); validates / refutes the hypothesis nFaceSort <= NumTri per record
+    flines = [R.to_line("F", cid, r, ()) for cid, r, tag, prog in recs]
+    fout, fcr = vp.run_cases(exe, flines, lambda l: l.split()[1], lambda l: l.split()[1] if l.startswith("F ") else None,
+                             timeout=1500, max_restarts=10, env=env)
+    nfaces = {}
+    for l in fout.splitlines():
+        if l.startswith("F "):
+            _, cid, nf, nt = l.split()
+            nfaces[cid] = (int(nf), int(nt))
+    for cl, rc1, err1 in fcr:
+        if rc1 != 124:
+            cx.violation("faces-replay-crash:" + crash_site(err1), "CreateHalfedges/CleanupTopology replay died on a record (rc=%s %s)" % (rc1, san_summary(err1)), {"case": cl})
+    faces_added = {cid: v for cid, v in nfaces.items() if v[0] > v[1]}
+    cx.cov["records_where_CleanupTopology_added_faces"] = len(faces_added)
+    cx.cov["records_with_faces_replayed"] = sum(1 for v in nfaces.values() if v[0] >= 0)
+    nftok = lambda cid: " NF %d" % nfaces[cid][0] if cid in nfaces else ""
+    lines0 = {cid: R.to_line("R", cid, r, ()) + nftok(cid) for cid, r, tag, prog in recs}
     tags = {cid: tag for cid, r, tag, prog in recs}
     rc, out_model, err = vp.sh2([drv, "current"], input="\n".join(lines0.values()) + "\n", timeout=1700)
     if rc != 0:
@@ -269,10 +288,13 @@ def run(cx):
             pred[cid] = (v, oob)
         elif l.startswith("T "):
             tline = l
-    m = re.match(r"T safe=(\d) status=(\d) unsafe=(\S*) badstatus=(\S*)", tline)
-    table_safe, status_ok = (m.group(1) == "1", m.group(2) == "1") if m else (False, False)
-    unsafe_items = [x for x in (m.group(3).split(",") if m else []) if x]
-    badstatus = [x for x in (m.group(4).split(",") if m else []) if x]
+    m = re.match(r"T safe=(\d) strong=(\d) status=(\d) unsafe=(\S*) badstatus=(\S*)", tline)
+    table_safe, table_strong, status_ok = (m.group(1) == "1", m.group(2) == "1", m.group(3) == "1") if m else (False, False, False)
+    unsafe_items = [x for x in (m.group(4).split(",") if m else []) if x]
+    if table_safe:
+        unsafe_items = [x for x in unsafe_items if x != "IPost"]
+    badstatus = [x for x in (m.group(5).split(",") if m else []) if x]
+    cx.cov["ladder_table_safe_strong"] = table_strong
     cx.cov["ladder_table_safe"] = table_safe
     cx.cov["unsafe_items"] = unsafe_items
     cx.cov["status_table_ok"] = status_ok
@@ -280,7 +302,7 @@ def run(cx):
     prng = random.Random(cx.seed * 31 + 5)
     lines = {}
     for cid, r, tag, _ in recs:
-        lines[cid] = R.to_line("R", cid, r, _ if _ is not None else gen_prog(prng, pred.get(cid, ("A", "none"))[0] != "A"))
+        lines[cid] = R.to_line("R", cid, r, _ if _ is not None else gen_prog(prng, pred.get(cid, ("A", "none"))[0] != "A")) + nftok(cid)
     safe_ids = [cid for cid in lines if pred.get(cid, ("?", "none"))[1] == "none"]
     oob_ids = [cid for cid in lines if cid in pred and pred[cid][1] != "none"]
     kl = lambda l: l.split()[1] if l.startswith("R ") else None
@@ -367,11 +389,14 @@ def run(cx):
     # records the model predicts to be out of bounds: each in its own process
     confirmed = {}
     predicted = {}
+    oob_ids.sort(key=lambda c: (c not in faces_added, int(c)))
     todo = oob_ids[:cx.pick(48, 2000)]
     for l, rc1, out1, err1 in run_isolated(exe, [lines[c] for c in todo]):
         cid = l.split()[1]
         arr = re.match(r"([\w-]+)", pred[cid][1]).group(1)
         key = KEY_OF_ARRAY.get(arr, "oob-" + arr)
+        if arr == "halfedgeTangent_" and cid in faces_added:
+            key = "dedupe-tangent-oob"       # tangents of the right length, but DedupeEdge added faces without tangents
         predicted[key] = predicted.get(key, 0) + 1
         if rc1 not in (0, 124):
             confirmed.setdefault(key, (l, pred[cid][1], san_summary(err1), err1))
@@ -392,6 +417,14 @@ def run(cx):
         if missing:
             cx.broke("obligation:ladder_table_safe", "Gen.Ladder.table lacks the rungs needed before %s and no concrete witness was confirmed" % ",".join(missing))
         cx.notes.append("ladder_table_safe Gen.Ladder.table = false (unsafe: %s); concrete witnesses: %s" % (",".join(unsafe_items), ",".join(sorted(confirmed))))
+    cx.obligations += 1                      # ladder_table_safe_strong: no hypothesis on the face count at sort time
+    if table_strong and translate_ok:
+        cx.discharged += 1
+    elif translate_ok and table_safe:
+        if "dedupe-tangent-oob" not in confirmed:
+            cx.broke("obligation:ladder_table_safe_strong", "DedupeEdge adds faces without extending halfedgeTangent_ (or is no longer recognised) "
+                     "and no record where that overruns the tangent gather was confirmed")
+        cx.notes.append("ladder_table_safe_strong Gen.Ladder.table = false: bounds hold only under nFaceSort <= NumTri; %d generated records add faces" % len(faces_added))
     cx.obligations += 1
     if status_ok:
         cx.discharged += 1
